@@ -400,6 +400,15 @@ func (c *Channel) PutMessageDeferred(msg *Message, timeout time.Duration) {
 
 // TouchMessage resets the timeout for an in-flight message
 func (c *Channel) TouchMessage(clientID int64, id MessageID, clientMsgTimeout time.Duration) error {
+	// hold the exit lock while the message is out of the in-flight set (see
+	// RequeueMessage): a close or an Empty in between would miss it
+	c.exitMutex.RLock()
+	defer c.exitMutex.RUnlock()
+	if c.Exiting() {
+		// still in flight: Close() persists it
+		return errors.New("exiting")
+	}
+
 	msg, err := c.popInFlightMessage(clientID, id)
 	if err != nil {
 		return err
